@@ -544,7 +544,7 @@ class Prop(BaseProp):
     def shrink_candidates(self, v):
         case, sched = v["case"], v["schedule"]
         for pol in _simpler_policies(sched):
-            yield case, dict(sched, policy=pol, overrides={})
+            yield case, dict(sched, policy=pol, overrides={}, sites={})
         if sched.get("overrides"):
             for kk in list(sched["overrides"]):
                 o = dict(sched["overrides"])
